@@ -13,6 +13,9 @@ git checkout -q -- . ; rm -f tests/seed_demo_*.rs
 export CARGO_NET_OFFLINE=true
 ok_apply=no; tests_pass=no; demo_fails=no; demo_passes_clean=no
 demo_rs="$SD/demo.rs"; demo_py="$SD/demo.py"
+[ -f "$SD/demo_rebased.rs" ] && demo_rs="$SD/demo_rebased.rs"
+[ -f "$SD/demo_rebased.py" ] && demo_py="$SD/demo_rebased.py"
+PATCH="$SD/patch.diff"; [ -f "$SD/patch_rebased.diff" ] && PATCH="$SD/patch_rebased.diff"
 run_demo() {
   if [ -f "$demo_rs" ]; then
     cp "$demo_rs" tests/seed_demo_x.rs
@@ -28,7 +31,7 @@ run_demo() {
 }
 run_demo; r0=$?
 [ $r0 -eq 0 ] && demo_passes_clean=yes
-if git apply --3way "$SD/patch.diff" 2>/tmp/seedverify.apply.log || git apply "$SD/patch.diff" 2>>/tmp/seedverify.apply.log; then ok_apply=yes; fi
+if git apply "$PATCH" 2>/tmp/seedverify.apply.log || git apply --3way "$PATCH" 2>>/tmp/seedverify.apply.log; then ok_apply=yes; fi
 if [ $ok_apply = yes ]; then
   if cargo test --workspace --no-fail-fast --offline >/tmp/seedverify.test.log 2>&1; then tests_pass=yes; fi
   run_demo; r1=$?
